@@ -240,7 +240,19 @@ def rule_bin_script(ctx, R):
             R.trivial(); continue
         key_fn = runner_stable(fn)
         R.inst(fn, "byte-safety", {"function": fn.split("::")[-1], "lossy_or_utf8_only_conversions": len(hits), "string_typed_argument_vectors": len(strargs)})
-        if hits:
+        # a closure of a helper that was inlined into its callers is reported under the caller
+        owner = fn
+        if "{closure" in fn:
+            parent = re.sub(r"(::\{closure#\d+\})+$", "", fn)
+            if parent not in ctx.prog.bodies:
+                into = getattr(ctx.prog, "inlined_into", {}).get(parent)
+                while into and into[0] not in ctx.prog.bodies and into[0] in getattr(ctx.prog, "inlined_into", {}):
+                    into = ctx.prog.inlined_into[into[0]]
+                if into:
+                    owner = re.sub(r"(::\{closure#\d+\})+$", "", into[0])
+        if hits and owner != fn:
+            R.finding(owner, "lossy-conversion", "%s converts script data through %s: binary KEYS/ARGV/arguments/replies do not arrive byte-for-byte (non-UTF-8 is replaced or refused)" % (owner.split("::")[-1], shared.short_callee(hits[0][1]["f"])), b.loc(hits[0][0]))
+        elif hits:
             R.finding(fn, "lossy-conversion", "%s converts script data through %s: binary KEYS/ARGV/arguments/replies do not arrive byte-for-byte (non-UTF-8 is replaced or refused)" % (fn.split("::")[-1], shared.short_callee(hits[0][1]["f"])), b.loc(hits[0][0]))
         elif strargs:
             R.finding(fn, "string-typed-arguments", "%s carries command arguments as Strings: binary arguments cannot be represented" % fn.split("::")[-1], b.loc())
@@ -330,6 +342,19 @@ def _cells(ctx, b, local, adt=None):
     return cells
 
 
+def _cell_regions(b, cells):
+    """blocks that belong to each cell's arm: everything reachable from the arm's entry that is not
+    the common continuation of all arms.  (Or-patterns -- `SimpleString(b) | BulkString(Some(b))`
+    -- enter one shared body through separate binding blocks, so dominance by the entry edge
+    would see the binding block only.)"""
+    reach = {name: cfg.fwd(b, [tb]) for name, (sw, tb) in cells.items()}
+    common = None
+    for r in reach.values():
+        common = set(r) if common is None else (common & r)
+    common = common or set()
+    return {name: r - common for name, r in reach.items()}
+
+
 def _built(b, region, rx, group=1):
     out = set()
     for y in region:
@@ -362,13 +387,14 @@ def rule_conv(ctx, R):
     if not cells:
         R.broken.append("no function of the Lua engine matches on a RespFrame and returns a Lua value"); return
     n = 0
+    regions = _cell_regions(b, cells)
     for cell, ref in sorted(R2L_REF.items()):
         if cell not in cells:
             R.inst(ROLE_R2L, "resp->lua:" + cell, {"arm": None})
             R.finding(ROLE_R2L, "resp->lua:%s:no-arm" % cell, "no conversion arm for %s replies" % cell, b.loc()); continue
         n += 1
         sw, tb = cells[cell]
-        reg = cfg.edge_dom_set(b, sw, tb)
+        reg = regions[cell]
         got = _built(b, reg, LUAVAL)
         errs = [y for y in reg if b.term(y)["k"] == "call" and callee(b.term(y)) == LE + "handle_command_error_with_context"]
         # a failed allocation inside the arm also goes through the error helper: only the Error arm
@@ -423,13 +449,14 @@ def rule_conv(ctx, R):
     if not cells:
         R.broken.append("no function of the Lua engine matches on a mlua::Value and returns a RespFrame"); return
     m = 0
+    regions = _cell_regions(b, cells)
     for cell, ref in sorted(L2R_REF.items()):
         if cell not in cells:
             R.inst(ROLE_L2R, "lua->resp:" + cell, {"arm": None, "cells": sorted(cells)})
             R.finding(ROLE_L2R, "lua->resp:%s:no-arm" % cell, "no conversion arm for Lua %s values" % cell, b.loc()); continue
         m += 1
         sw, tb = cells[cell]
-        reg = cfg.edge_dom_set(b, sw, tb)
+        reg = regions[cell]
         got = _built(b, reg, RESPV)
         R.inst(ROLE_L2R, "lua->resp:" + cell, {"builds": sorted(got), "reference": sorted(ref)})
         if got != ref:
